@@ -3,6 +3,35 @@ package main
 func buildProperties() []Property {
 	return []Property{
 		{
+			ID: "C16", Title: "Relational built-ins enumerate exactly their relation in every call mode",
+			Decides:    "the clause 'text measured in characters, not bytes': in the atom-processing builtins (resolved from the registration calls) a string obtained from an atom is measured and indexed only through []rune or range offsets; its byte length feeds only capacities and zero tests; it is sliced only at offsets produced by ranging over the same string.",
+			NotDecided: "completeness and exactly-once enumeration in every mode - behavioural.",
+			Rules: []RuleDef{
+				{"R-TEXT-RUNE", 8, ruleTextRune},
+			},
+		},
+		{
+			ID: "C19", Title: "A stream is one forward cursor: peeks do not consume, nothing skipped/repeated",
+			Decides:    "the cursor bookkeeping (buffer, position, end-of-stream, last rune size) is touched only by the stream's own methods; each method that moves the underlying reader/writer moves `position` in the same direction by the amount transferred, on the success edge; peek_char/peek_byte install the matching un-read on every path after their read and get_* never un-read; read_term/3 un-reads exactly once on the stream its parser was built on.",
+			NotDecided: "that mixed operation sequences deliver consecutive data, the end-of-stream state machine, that one un-read is enough after read_term (would need the ring's contents, not its depth).",
+			Rules: []RuleDef{
+				{"R-STREAM-OWNER", 8, ruleStreamOwner},
+				{"R-POSITION-PAIRING", 6, rulePositionPairing},
+				{"R-PEEK-UNREAD", 5, rulePeekUnread},
+			},
+		},
+		{
+			ID: "C08", Title: "Standard order is total and representation-independent; sorts obey it",
+			Decides:    "for every ordered pair of concrete term representations the Compare method, partially evaluated under 'the resolved argument has that dynamic type', returns exactly the constant the documented class order dictates, antisymmetrically (cross-class totality and antisymmetry; transitivity follows from a consistent rank); same-class pairs reach a value comparison; keysort/2 uses a stable sort; sort/2 and setof/3 share one set constructor that orders and deduplicates with Term.Compare.",
+			NotDecided: "ordering within a class (atoms by text, compounds by arity/name/args, numeric values), and that different encodings of the same list compare equal.",
+			Rules: []RuleDef{
+				{"R-COMPARE-MATRIX", 100, ruleCompareMatrix},
+				{"R-STABLE-KEYSORT", 1, ruleStableKeysort},
+				{"R-SET-ORDER", 4, ruleSetOrder},
+				{"R-COMPOUND-UNIFORM", 7, ruleCompoundUniform},
+			},
+		},
+		{
 			ID: "C14", Title: "Separate interpreters are isolated and run concurrently without data races",
 			Decides:    "whole-program discipline for package-level state, recomputed from the source on every run: every run-time write to a package-level variable is under that variable's mutex or atomic; a variable written after init is read only under the lock or atomically; package-level maps are only read after init; no store can reach an object shared through a package-level variable (default write options, singleton promises, root environment). Hence the only state shared between two interpreters is guarded (no data race on library state for any schedule) and nothing one interpreter changes is reachable from another.",
 			NotDecided: "equality of answers with a sequential run; races inside host-provided readers/writers; the VM fields themselves (one goroutine per interpreter is assumed by the property).",
